@@ -87,7 +87,10 @@ Call ==
         THEN roots' = <<>> /\ cur' = [st |-> "err"]
         ELSE LET top == Elems(DocItems(evs))
                  newroots == IF top = <<>> THEN roots ELSE Append(roots, top[1])
+                 \* (the harness flags documents in which sibling names / attribute names of one element differ only by
+                 \*  namespace prefix: outside the domain of C01 and of the properties quantified "as in C01")
                  indomain == /\ ~experr
+                             /\ ~e.prefix_clash
                              /\ Len(top) <= 1
                              /\ \A i \in 1..Len(newroots) : newroots[i].name = newroots[1].name
                              /\ (cur.st = "ok" => cur.indomain)
